@@ -106,6 +106,7 @@ func fdecSrcCase(rr *h.Rand, p *party, file []byte, armored bool, truth []byte, 
 }
 
 func runC12(cx *ctx) {
+	armorTrailCases(cx, "c12-", true, false)
 	r := cx.rng
 	// whole files through age.Decrypt under every kind of source, valid and damaged, binary and armored
 	for i := 0; i < cx.n(400, 6000); i++ {
